@@ -1,0 +1,18 @@
+//go:build verif
+
+package uasc
+
+// ActiveMaxBodySize returns the maximum chunk body size of the active channel instance.
+func (v VerifChannel) ActiveMaxBodySize() (uint32, bool) {
+	v.S.instancesMu.Lock()
+	defer v.S.instancesMu.Unlock()
+	if v.S.activeInstance == nil {
+		return 0, false
+	}
+	return v.S.activeInstance.maxBodySize, true
+}
+
+// ConnBufSizes returns the negotiated (send, receive) buffer sizes of the channel's connection.
+func (v VerifChannel) ConnBufSizes() (send, recv uint32) {
+	return v.S.c.SendBufSize(), v.S.c.ReceiveBufSize()
+}
